@@ -105,7 +105,32 @@ func embOffset(st types.Type, idx int) int64 {
 
 // embRef gives the object ref of a struct-typed field embedded by value.
 func (vc *VC) embRef(st types.Type, idx int, ref string) string {
+	// Lock objects (sync.Mutex / sync.RWMutex fields) get a typed address
+	// ref*lockStride + uid, uid unique per (owner type, field): memory is
+	// typed, so the locks of objects of different types - or different lock
+	// fields of one object - are distinct, and the solver sees it by
+	// arithmetic. These addresses are only used as keys of ghost lock maps.
+	s := structOf(st)
+	if isLockType(s.Field(idx).Type()) {
+		key := namedName(st) + "." + s.Field(idx).Name()
+		uid, ok := vc.lockUID[key]
+		if !ok {
+			uid = len(vc.lockUID) + 1
+			vc.lockUID[key] = uid
+		}
+		return fmt.Sprintf("(+ (* %s %d) %d)", ref, lockStride, uid)
+	}
 	return sAdd(ref, sNum(embOffset(st, idx)))
+}
+
+const lockStride = 4096
+
+func isLockType(t types.Type) bool {
+	n, ok := t.(*types.Named)
+	if !ok || n.Obj().Pkg() == nil || n.Obj().Pkg().Path() != "sync" {
+		return false
+	}
+	return n.Obj().Name() == "Mutex" || n.Obj().Name() == "RWMutex"
 }
 
 // elemRef gives the object ref of a struct-typed slice element.
